@@ -76,7 +76,11 @@ class ServerNode:
         self.deliveries = 0
 
     def _ctx(self) -> Any:
-        return self.context_factory() if self.context_factory else None
+        ctx = self.context_factory() if self.context_factory else None
+        from . import service as _svc
+        mark = getattr(ctx, 'mark', None)
+        _svc.CURRENT_CONTEXT_MARK[0] = mark if isinstance(mark, str) else None
+        return ctx
 
     def _observe(self, text: str, outcome: Tuple[str, Any]) -> None:
         for m in self.monitors:
